@@ -145,6 +145,11 @@ func (x *X) eval3(e ast.Expr, env Env) int {
 		return 0
 	}
 	switch c := e.(type) {
+	case *ast.CallExpr:
+		// a one-line predicate helper: its returned expression over the arguments
+		if body := x.predicateOf(c); body != nil {
+			return x.eval3(body, env)
+		}
 	case *ast.UnaryExpr:
 		if c.Op == token.NOT {
 			return -x.eval3(c.X, env)
@@ -224,6 +229,11 @@ func (x *X) refine(cond ast.Expr, val bool, env Env) {
 	case *ast.Ident:
 		if rhs := x.Expand(c); rhs != nil {
 			x.refine(rhs, val, env)
+		}
+	case *ast.CallExpr:
+		if body := x.predicateOf(c); body != nil {
+			x.refine(body, val, env)
+			return
 		}
 	}
 	if o := x.boolLocal(cond); o != nil {
@@ -335,23 +345,29 @@ type ReachQuery struct {
 func (x *X) Reach(q ReachQuery) []string {
 	x.assume = q.Assume
 	defer func() { x.assume = nil }()
+	x.Shaky = false
 	type state struct {
-		b    *cfg.Block
-		i    int
-		env  Env
-		prev *state
-		note string
+		b     *cfg.Block
+		i     int
+		env   Env
+		prev  *state
+		note  string
+		shaky bool // the path took a branch whose condition hands a tracked value to code that is not evaluated
 	}
 	seen := map[string]bool{}
 	var queue []*state
-	push := func(b *cfg.Block, i int, env Env, prev *state, note string) {
-		k := fmt.Sprintf("%d/%d/%s", b.Index, i, env.key())
+	push := func(b *cfg.Block, i int, env Env, prev *state, note string, shaky bool) {
+		if prev != nil && prev.shaky {
+			shaky = true
+		}
+		k := fmt.Sprintf("%d/%d/%v/%s", b.Index, i, shaky, env.key())
 		if seen[k] {
 			return
 		}
 		seen[k] = true
-		queue = append(queue, &state{b, i, env, prev, note})
+		queue = append(queue, &state{b, i, env, prev, note, shaky})
 	}
+	var shakyWitness []string
 	env0 := q.Env.clone()
 	if q.FromSucc >= 0 {
 		for _, f := range x.EdgeFacts(q.From.B, q.FromSucc) {
@@ -362,9 +378,9 @@ func (x *X) Reach(q ReachQuery) []string {
 				env0[o] = eq == f.Val
 			}
 		}
-		push(q.From.B.Succs[q.FromSucc], 0, env0, nil, "")
+		push(q.From.B.Succs[q.FromSucc], 0, env0, nil, "", false)
 	} else {
-		push(q.From.B, q.From.I+1, env0, nil, "")
+		push(q.From.B, q.From.I+1, env0, nil, "", false)
 	}
 	witness := func(s *state, last ast.Node) []string {
 		var chain []*state
@@ -397,7 +413,14 @@ func (x *X) Reach(q ReachQuery) []string {
 		for i := s.i; i < len(s.b.Nodes); i++ {
 			n := s.b.Nodes[i]
 			if q.Target != nil && q.Target(n) {
-				return witness(s, n)
+				if !s.shaky {
+					return witness(s, n)
+				}
+				if shakyWitness == nil {
+					shakyWitness = witness(s, n)
+				}
+				cut = true
+				break
 			}
 			if q.Cut != nil && q.Cut(n) {
 				cut = true
@@ -417,19 +440,63 @@ func (x *X) Reach(q ReachQuery) []string {
 			}
 			e2 := env
 			note := ""
+			shaky := false
 			if cond != nil && len(s.b.Succs) == 2 {
 				v := x.eval3(cond, env)
 				if v == 1 && si == 1 || v == -1 && si == 0 {
 					continue
 				}
+				if v == 0 && x.opaqueUse(cond, env) {
+					shaky = true
+				}
 				e2 = env.clone()
 				x.refine(cond, si == 0, e2)
 				note = fmt.Sprintf("%s is %v", core.NodeString(x.G.Fset, cond), si == 0)
 			}
-			push(t, 0, e2, s, note)
+			push(t, 0, e2, s, note, shaky)
 		}
 	}
+	if shakyWitness != nil {
+		x.Shaky = true
+		return shakyWitness
+	}
 	return nil
+}
+
+// opaqueUse: cond contains a call that is not evaluated (not a one-line predicate helper) and that
+// is handed a local whose value the search tracks and knows: the call's answer may depend on that
+// value, so both outcomes are followed without justification.
+func (x *X) opaqueUse(cond ast.Expr, env Env) bool {
+	hit := false
+	var visit func(e ast.Expr)
+	visit = func(e ast.Expr) {
+		ast.Inspect(e, func(n ast.Node) bool {
+			if hit {
+				return false
+			}
+			call, ok := n.(*ast.CallExpr)
+			if !ok {
+				return true
+			}
+			if body := x.predicateOf(call); body != nil {
+				visit(body)
+				return false
+			}
+			ast.Inspect(call, func(m ast.Node) bool {
+				if id, ok := m.(*ast.Ident); ok {
+					if o := core.ObjOf(x.Info, id); o != nil {
+						if _, known := env[o]; known {
+							hit = true
+						}
+					}
+				}
+				return !hit
+			})
+			return false
+		})
+	}
+	visit(cond)
+	return hit
 }
 
 // ---------------------------------------------------------------------------
@@ -747,6 +814,12 @@ func matchLenBound(info *types.Info, cond ast.Expr) []ast.Expr {
 	if !ok {
 		return nil
 	}
+	if be.Op == token.LAND { // `i < len(l) && !found`: the bound is one of the conjuncts
+		if r := matchLenBound(info, be.X); r != nil {
+			return r
+		}
+		return matchLenBound(info, be.Y)
+	}
 	lenOf := func(e ast.Expr) ast.Expr {
 		call, ok := ast.Unparen(e).(*ast.CallExpr)
 		if !ok || len(call.Args) != 1 {
@@ -768,4 +841,258 @@ func matchLenBound(info *types.Info, cond ast.Expr) []ast.Expr {
 		}
 	}
 	return nil
+}
+
+// PrefixMarker is the callee name of the synthesised call that PrefixBySlicing produces.
+const PrefixMarker = "hasPrefix$"
+
+// PrefixBySlicing returns a Rewrite that turns the hand-written prefix test
+// `len(s) >= len(p) && s[:len(p)] == p` (either operand order of the parts) into the synthesised
+// call PrefixMarker(s, p), which rules treat like strings.HasPrefix(s, p).
+func PrefixBySlicing(info *types.Info) func(ast.Expr) ast.Expr {
+	memo := map[ast.Expr]ast.Expr{}
+	lenOf := func(e ast.Expr) ast.Expr {
+		call, ok := ast.Unparen(e).(*ast.CallExpr)
+		if !ok || len(call.Args) != 1 {
+			return nil
+		}
+		if id, ok := call.Fun.(*ast.Ident); !ok || id.Name != "len" {
+			return nil
+		}
+		return call.Args[0]
+	}
+	return func(e ast.Expr) ast.Expr {
+		if r, ok := memo[e]; ok {
+			return r
+		}
+		be, ok := ast.Unparen(e).(*ast.BinaryExpr)
+		if !ok {
+			return nil
+		}
+		// strings.TrimPrefix(s, p) != s (p a non-empty constant) is strings.HasPrefix(s, p); == s its negation
+		if be.Op == token.EQL || be.Op == token.NEQ {
+			for _, pair := range [][2]ast.Expr{{be.X, be.Y}, {be.Y, be.X}} {
+				call, ok := ast.Unparen(pair[0]).(*ast.CallExpr)
+				if !ok || len(call.Args) != 2 {
+					continue
+				}
+				if f := core.CalleeFunc(info, call); f == nil || f.Pkg() == nil || f.Pkg().Path() != "strings" && f.Pkg().Path() != "bytes" || f.Name() != "TrimPrefix" {
+					continue
+				}
+				if f := core.CalleeFunc(info, call); f.Pkg().Path() == "bytes" {
+					continue // slices are not comparable with == / !=
+				}
+				if c, isConst := core.StringConst(info, call.Args[1]); !isConst || c == "" {
+					continue
+				}
+				if !sameExpr(info, call.Args[0], pair[1]) {
+					continue
+				}
+				var r ast.Expr = &ast.CallExpr{Fun: &ast.Ident{NamePos: e.Pos(), Name: PrefixMarker}, Lparen: e.Pos(), Args: []ast.Expr{call.Args[0], call.Args[1]}, Rparen: e.End()}
+				if be.Op == token.EQL {
+					r = &ast.UnaryExpr{OpPos: e.Pos(), Op: token.NOT, X: r}
+				}
+				memo[e] = r
+				return r
+			}
+		}
+		// strings.Index(s, p) == 0 is strings.HasPrefix(s, p); != 0 its negation
+		if be.Op == token.EQL || be.Op == token.NEQ {
+			for _, pair := range [][2]ast.Expr{{be.X, be.Y}, {be.Y, be.X}} {
+				tv, isConst := info.Types[ast.Unparen(pair[1])]
+				if !isConst || tv.Value == nil || tv.Value.String() != "0" {
+					continue
+				}
+				call, ok := ast.Unparen(pair[0]).(*ast.CallExpr)
+				if !ok || len(call.Args) != 2 {
+					continue
+				}
+				if f := core.CalleeFunc(info, call); f == nil || f.Pkg() == nil || f.Pkg().Path() != "strings" && f.Pkg().Path() != "bytes" || f.Name() != "Index" {
+					continue
+				}
+				var r ast.Expr = &ast.CallExpr{Fun: &ast.Ident{NamePos: e.Pos(), Name: PrefixMarker}, Lparen: e.Pos(), Args: []ast.Expr{call.Args[0], call.Args[1]}, Rparen: e.End()}
+				if be.Op == token.NEQ {
+					r = &ast.UnaryExpr{OpPos: e.Pos(), Op: token.NOT, X: r}
+				}
+				memo[e] = r
+				return r
+			}
+			return nil
+		}
+		if be.Op != token.LAND {
+			return nil
+		}
+		for _, pair := range [][2]ast.Expr{{be.X, be.Y}, {be.Y, be.X}} {
+			lenCmp, ok1 := ast.Unparen(pair[0]).(*ast.BinaryExpr)
+			eq, ok2 := ast.Unparen(pair[1]).(*ast.BinaryExpr)
+			if !ok1 || !ok2 || eq.Op != token.EQL {
+				continue
+			}
+			var s, p ast.Expr
+			switch lenCmp.Op {
+			case token.GEQ:
+				s, p = lenOf(lenCmp.X), lenOf(lenCmp.Y)
+			case token.LEQ:
+				s, p = lenOf(lenCmp.Y), lenOf(lenCmp.X)
+			}
+			if s == nil || p == nil {
+				continue
+			}
+			for _, sides := range [][2]ast.Expr{{eq.X, eq.Y}, {eq.Y, eq.X}} {
+				sl, ok := ast.Unparen(sides[0]).(*ast.SliceExpr)
+				if !ok || sl.Low != nil || sl.Slice3 || !sameExpr(info, sl.X, s) || !sameExpr(info, sides[1], p) {
+					continue
+				}
+				if hp := lenOf(sl.High); hp == nil || !sameExpr(info, hp, p) {
+					continue
+				}
+				r := &ast.CallExpr{Fun: &ast.Ident{NamePos: e.Pos(), Name: PrefixMarker}, Lparen: e.Pos(), Args: []ast.Expr{s, p}, Rparen: e.End()}
+				memo[e] = r
+				return r
+			}
+		}
+		return nil
+	}
+}
+
+// ReachesFunc reports whether root mentions the function f (a call, a method value, a function
+// value) directly or inside a same-package function or function literal it can call (depth levels
+// of helpers). It is the guard of an absence claim "f is never called from here".
+func ReachesFunc(p *core.Program, info *types.Info, root ast.Node, f types.Object, depth int) bool {
+	seen := map[ast.Node]bool{}
+	var visit func(n ast.Node, depth int) bool
+	visit = func(n ast.Node, depth int) bool {
+		if n == nil || seen[n] {
+			return false
+		}
+		seen[n] = true
+		found := false
+		ast.Inspect(n, func(m ast.Node) bool {
+			if found {
+				return false
+			}
+			switch v := m.(type) {
+			case *ast.Ident:
+				if info.Uses[v] == f {
+					found = true
+				}
+			case *ast.CallExpr:
+				if depth > 0 {
+					if h := p.FnOf(core.CalleeFunc(info, v)); h != nil && h.Decl.Body != nil && h.Pkg.TypesInfo == info {
+						if visit(h.Decl.Body, depth-1) {
+							found = true
+						}
+					}
+				}
+			}
+			return !found
+		})
+		return found
+	}
+	return visit(root, depth)
+}
+
+// predicateOf: call invokes a same-package function, method or function literal bound once to a
+// local whose body is the single statement `return <boolean expression>`; the result is that
+// expression with the parameters replaced by the arguments (nil otherwise). Arguments are
+// substituted as written: they must be free of effects for the substitution to mean the same,
+// which holds for the identifiers, selectors and literals accepted here.
+func (x *X) predicateOf(call *ast.CallExpr) ast.Expr {
+	if x.preds == nil {
+		x.preds = map[*ast.CallExpr]ast.Expr{}
+	}
+	if r, ok := x.preds[call]; ok {
+		return r
+	}
+	x.preds[call] = nil
+	if call.Ellipsis.IsValid() || x.Prog == nil {
+		return nil
+	}
+	var params *ast.FieldList
+	var recv *ast.FieldList
+	var body *ast.BlockStmt
+	if f := core.CalleeFunc(x.Info, call); f != nil {
+		h := x.Prog.FnOf(f)
+		if h == nil || h.Decl.Body == nil || h.Pkg.TypesInfo != x.Info {
+			return nil
+		}
+		params, recv, body = h.Decl.Type.Params, h.Decl.Recv, h.Decl.Body
+	} else if id, ok := ast.Unparen(call.Fun).(*ast.Ident); ok {
+		d, ok := SingleDef(x.Info, x.G.Body, id)
+		if !ok || d.Rhs == nil || d.Index != -1 {
+			return nil
+		}
+		lit, ok := ast.Unparen(d.Rhs).(*ast.FuncLit)
+		if !ok {
+			return nil
+		}
+		params, body = lit.Type.Params, lit.Body
+	} else {
+		return nil
+	}
+	if len(body.List) != 1 {
+		return nil
+	}
+	ret, ok := body.List[0].(*ast.ReturnStmt)
+	if !ok || len(ret.Results) != 1 {
+		return nil
+	}
+	if b, ok := x.Info.TypeOf(ret.Results[0]).Underlying().(*types.Basic); !ok || b.Kind() != types.Bool && b.Kind() != types.UntypedBool {
+		return nil
+	}
+	bind := map[types.Object]ast.Expr{}
+	k := 0
+	for _, fl := range params.List {
+		if len(fl.Names) == 0 {
+			return nil
+		}
+		for _, n := range fl.Names {
+			if k >= len(call.Args) {
+				return nil
+			}
+			if o := x.Info.Defs[n]; o != nil {
+				bind[o] = call.Args[k]
+			}
+			k++
+		}
+	}
+	if k != len(call.Args) {
+		return nil
+	}
+	if recv != nil && len(recv.List) == 1 && len(recv.List[0].Names) == 1 {
+		if sel, ok := ast.Unparen(call.Fun).(*ast.SelectorExpr); ok {
+			if o := x.Info.Defs[recv.List[0].Names[0]]; o != nil {
+				bind[o] = sel.X
+			}
+		}
+	}
+	for _, a := range bind {
+		pure := true
+		ast.Inspect(a, func(n ast.Node) bool {
+			switch n.(type) {
+			case *ast.CallExpr, *ast.FuncLit, *ast.UnaryExpr:
+				if u, isU := n.(*ast.UnaryExpr); isU && u.Op != token.ARROW {
+					return true
+				}
+				pure = false
+			}
+			return pure
+		})
+		if !pure {
+			return nil
+		}
+	}
+	cl := &cloner{info: x.Info}
+	cl.repl = func(e ast.Expr) ast.Expr {
+		if id, ok := e.(*ast.Ident); ok {
+			if a, bound := bind[x.Info.Uses[id]]; bound {
+				return a
+			}
+		}
+		return nil
+	}
+	out := cl.clone(ret.Results[0]).(ast.Expr)
+	cl.transfer(nil)
+	x.preds[call] = out
+	return out
 }
